@@ -18,6 +18,7 @@
  *                   NARROW_PIX (WIDEN_PIX (source pixel))
  *   -DVC_W          width (default 3)
  *   -DVC_SX -DVC_MX -DVC_DX   fix the three x offsets for this query (default: symbolic, src/mask in [0,2], dest in [1,2])
+ *   -DVC_K          fix the ghost pixel for this query (default: symbolic in [0, VC_W))
  *   -DVC_XBASE      added to the symbolic x offsets in [0,2] of 1-bpp images (to cross a 32-bit word: 30)
  *   -DVC_OWN_MEMCPY (fast_composite_src_memcpy) memcpy is the byte loop below instead of CBMC 6.11's library model, which
  *                   drops the last word of a 12-byte copy between word arrays at symbolic offsets (false alarm, natively
@@ -150,7 +151,11 @@ void harness (void)
 #else
     VH_IN (vh_u32, in_sx); VH_IN (vh_u32, in_mx); VH_IN (vh_u32, in_dx);
 #endif
+#ifdef VC_K
+    const vh_u32 in_k = VC_K;   /* ghost pixel fixed per query (masked colour channels: one query per pixel of the row) */
+#else
     VH_IN (vh_u32, in_k);
+#endif
     VC_TYPE (VC_SFMT) sbuf[VC_NEL (VC_SFMT)] VC_ALIGN16;
     VC_TYPE (VC_MFMT) mbuf[VC_NEL (VC_MFMT)] VC_ALIGN16;
     VC_TYPE (VC_DFMT) dbuf[VC_NEL (VC_DFMT)] VC_ALIGN16, dold[VC_NEL (VC_DFMT)] VC_ALIGN16;
